@@ -246,8 +246,13 @@ func (tds *Conn) ReadFrom() {
 		// Errors are recorded in the channels' error channel.
 		tdsChan.WritePacket(packet)
 
-		// err from packet.ReadFrom
-		if errors.Is(err, io.EOF) {
+		// err from packet.ReadFrom: the transport reported its end
+		// together with the last bytes of the packet. That is the
+		// expected end of the connection after a close packet. After
+		// any other packet the consumers may still wait for the rest
+		// of a response - read on, the next read reports the end again
+		// and it is passed on like every other read error.
+		if errors.Is(err, io.EOF) && packet.Header.MsgType == TDS_BUF_CLOSE {
 			return
 		}
 	}
